@@ -138,6 +138,11 @@ Definition disciplined (B : list thread) (prot : nat -> nat) : Prop :=
 
 (* ---- boolean checker (run by vm_compute on the extracted footprint) ---- *)
 
+Definition writes_of (th : thread) : list nat :=
+  flat_map (fun a => match acc_loc a with
+                     | Some x => if acc_write a then [x] else []
+                     | None => [] end) th.
+
 Definition accessesb (f : action -> bool) (x : nat) (a : action) : bool :=
   match acc_loc a with Some y => Nat.eqb x y && f a | None => false end.
 
@@ -160,16 +165,22 @@ Fixpoint check_thread (need : nat -> bool) (prot : nat -> nat) (th : thread) (h 
        end) && check_thread need prot r (step_held a h)
   end.
 
+Fixpoint nodup_nat (l : list nat) : list nat :=
+  match l with [] => [] | x :: r => if memb x r then nodup_nat r else x :: nodup_nat r end.
+
+(* the locations that need a lock, computed once: written somewhere and plainly accessed
+   somewhere (the translator numbers written locations first, so these are small numbers) *)
+Definition written_locs (B : list thread) : list nat := nodup_nat (flat_map writes_of B).
+Definition need_list (B : list thread) : list nat := filter (plainb B) (written_locs B).
+
 Definition disciplinedb (B : list thread) (prot : nat -> nat) : bool :=
-  forallb (fun th => check_thread (needs_lockb B) prot th ([], [])) B.
+  let nl := need_list B in
+  forallb (fun th => check_thread (fun x => memb x nl) prot th ([], [])) B.
 
 (* inference of the protecting mutex: the first mutex of the program under which
    every access of the location is protected *)
 Definition mutex_of (a : action) : option nat :=
   match a with Lk m | Ulk m | RLk m | RUlk m => Some m | _ => None end.
-
-Fixpoint nodup_nat (l : list nat) : list nat :=
-  match l with [] => [] | x :: r => if memb x r then nodup_nat r else x :: nodup_nat r end.
 
 Definition mutexes (B : list thread) : list nat :=
   nodup_nat (flat_map (fun th => flat_map (fun a => match mutex_of a with Some m => [m] | None => [] end) th) B).
@@ -188,16 +199,14 @@ Fixpoint assoc (tbl : list (nat * nat)) (x : nat) : nat :=
   end.
 
 Definition infer_prot (B : list thread) : list (nat * nat) :=
-  flat_map (fun x => if needs_lockb B x
-                     then match find (loc_ok B x) (mutexes B) with Some m => [(x, m)] | None => [] end
-                     else []) (locations B).
+  flat_map (fun x => match find (loc_ok B x) (mutexes B) with Some m => [(x, m)] | None => [] end) (need_list B).
 
 Definition disciplinedb_auto (B : list thread) : bool := disciplinedb B (assoc (infer_prot B)).
 
 (* the locations that need a lock but have none that protects every access: the
    diagnostic printed when the instance proof fails *)
 Definition unprotected (B : list thread) : list nat :=
-  filter (fun x => needs_lockb B x && negb (existsb (loc_ok B x) (mutexes B))) (locations B).
+  filter (fun x => negb (existsb (loc_ok B x) (mutexes B))) (need_list B).
 
 (* ---- isolation discipline: which shared locations request-phase code may write ---- *)
 
@@ -207,11 +216,6 @@ Definition unprotected (B : list thread) : list nat :=
               is the documented purpose of the helper
    WPrivate   storage owned by one request by construction (its own key, its own object) *)
 Inductive wclass := WMemo | WMonotone | WPrivate.
-
-Definition writes_of (th : thread) : list nat :=
-  flat_map (fun a => match acc_loc a with
-                     | Some x => if acc_write a then [x] else []
-                     | None => [] end) th.
 
 Fixpoint classified (cls : list (nat * wclass)) (x : nat) : bool :=
   match cls with [] => false | (y, _) :: r => Nat.eqb x y || classified r x end.
